@@ -6,6 +6,7 @@ import (
 	"io"
 
 	iec "github.com/nspcc-dev/neofs-node/internal/ec"
+	"github.com/nspcc-dev/neofs-sdk-go/netmap"
 	"github.com/nspcc-dev/neofs-sdk-go/object"
 )
 
@@ -18,4 +19,10 @@ func VerifEncodeECParent(rules []iec.Rule, hdr *object.Object, payload io.Reader
 		return nil, nil, err
 	}
 	return t.encodedECParts, t.objectPayload, nil
+}
+
+// VerifECNodesForPart is the real ecNodesForPart (node order used to place one
+// EC part).
+func VerifECNodesForPart(nodeList []netmap.NodeInfo, partIdx, totalParts int) []netmap.NodeInfo {
+	return ecNodesForPart(nodeList, partIdx, totalParts)
 }
